@@ -286,6 +286,13 @@ func (st *State) builtin(b *ssa.Builtin, c *ssa.CallCommon, args []Value, pos to
 	case "delete":
 		st.mapDelete(args[0], args[1])
 		return Value{}
+	case "clear":
+		// clear(slice): "sets all elements up to the length of s to the zero value of T" (maps: not modelled)
+		if !isSlice(args[0].T) {
+			panic(engineErr("unsupported builtin clear on %s", args[0].T))
+		}
+		st.clearOp(args[0], pos)
+		return Value{}
 	case "close":
 		st.chanClose(args[0], pos)
 		return Value{}
@@ -381,6 +388,22 @@ func (st *State) copyOp(dst Value, src Value, pos token.Pos) Value {
 		Eq(Select(na, i), Select(base, i)))))
 	st.heapSet(name, sort, Store(m, dref, na))
 	return Value{T: types.Typ[types.Int], Tm: n}
+}
+
+func (st *State) clearOp(dst Value, pos token.Pos) {
+	e := st.eng()
+	el := elemOf(dst.T)
+	name, sort := e.memName(el)
+	m := st.heapGet(name, sort)
+	dl, doff, dref := SlLen(dst.Tm), SlOff(dst.Tm), SlRef(dst.Tm)
+	st.writableCheck(dref, pos, "clear")
+	na := e.fresh("clr", ArraySort(SInt, e.sortOf(el)))
+	i := Term{"i!q", SInt}
+	base := Select(m, dref)
+	st.assume(Forall([]Term{i}, Ite(And(Le(doff, i), Lt(i, Add(doff, dl))),
+		Eq(Select(na, i), e.zeroOf(el)),
+		Eq(Select(na, i), Select(base, i)))))
+	st.heapSet(name, sort, Store(m, dref, na))
 }
 
 // writableCheck: a store through a slice that may alias read-only string memory
@@ -615,16 +638,6 @@ func (st *State) applySpec(spec *FuncSpec, sig *types.Signature, args []Value, p
 	for i := 0; i < rs.Len(); i++ {
 		res = append(res, st.symbolicValue("r_"+short, rs.At(i).Type()))
 	}
-	// ghost assignments of the callee's contract (trusted for external callees)
-	for _, gs := range spec.GhostSets {
-		if !spec.Extern {
-			break // ghost assignments of verified functions speak about their locals; callers rely on ensures
-		}
-		env := mkEnv(pre)
-		env.res = res
-		st.ghostAssign(env, gs[0], gs[1])
-		st.assumeAll(env.defs)
-	}
 	// channel counters are exempt from modifies clauses (and from the callee's frame check): a callee whose body
 	// (transitively, through static calls) contains channel operations may have changed them
 	// scratch ghost variables are arbitrary after any contract call (the writer's own postcondition then says what it left)
@@ -637,6 +650,16 @@ func (st *State) applySpec(spec *FuncSpec, sig *types.Signature, args []Value, p
 		for _, n := range sn {
 			st.heapHavoc(n, e.scratchSorts[n])
 		}
+	}
+	// ghost assignments of the callee's contract (trusted for external callees)
+	for _, gs := range spec.GhostSets {
+		if !spec.Extern {
+			break // ghost assignments of verified functions speak about their locals; callers rely on ensures
+		}
+		env := mkEnv(pre)
+		env.res = res
+		st.ghostAssign(env, gs[0], gs[1])
+		st.assumeAll(env.defs)
 	}
 	if callee != nil {
 		names := map[string]bool{}
